@@ -85,6 +85,20 @@ impl PathSelector {
         })
     }
 
+    /// Returns true if the given directory or one of its ancestors matches an exclude filter,
+    /// so nothing in that directory can be selected.
+    /// Unlike `matches_dir`, the include filters are not consulted: when symbolic links
+    /// are followed, a directory outside of the included paths may hold links to matching files.
+    pub fn excludes_dir(&self, path: &Path) -> bool {
+        self.with_absolute_path(path, |path| {
+            let mut path = path.to_string_lossy();
+            if !path.ends_with(MAIN_SEPARATOR) {
+                path.push(MAIN_SEPARATOR);
+            }
+            self.excluded_paths.iter().any(|p| p.matches_prefix(&path))
+        })
+    }
+
     /// Executes given code with a reference to an absolute path.
     /// If `path` is already absolute, a direct reference is provided and no allocations happen.
     /// If `path` is relative, it would be appended to the `self.base_path` first and a reference
